@@ -124,6 +124,21 @@ theorem c19_agent (a : List Entry) (new : Entry) (hnd : (a.map Entry.blob).Nodup
       · subst h'; rw [hself] at he; cases he
     · intro h'; exact Or.inl h'
 
+/-- **Agent upsert source** (regenerated): the two functions `agentUpsert` transcribes read, after
+whitespace normalisation, exactly as they did when the model was written (list the agent; for every
+entry that parses as a certificate and carries the comment: `Remove`; then `Add`).  Any edit —
+even a harmless one — breaks this tie and sends the check looking for a failing input. -/
+theorem c19_agent_source :
+    KM.Gen.deleteDuplicateEntriesSrc = "{ keyList, err := agentClient.List() if err != nil { return 0, err } deletedCount := 0 for _, key := range keyList { pubKey, err := ssh.ParsePublicKey(key.Marshal()) if err != nil { logger.Debugln(0, err) continue } _, ok := pubKey.(*ssh.Certificate) if !ok { continue } if key.Comment != comment { continue } err = agentClient.Remove(pubKey) if err != nil { return deletedCount, err } deletedCount++ } return deletedCount, nil }".toList ∧
+    KM.Gen.withAddedKeyUpsertCertIntoAgentConnectionSrc = "{ if certToAdd.Certificate == nil { return fmt.Errorf(\"Needs a certificate to be added\") } agentClient := agent.NewClient(conn) _, err := deleteDuplicateEntries(certToAdd.Comment, agentClient, logger) if err != nil { logger.Printf(\"failed during deletion err=%s\", err) return err } if runtime.GOOS == \"windows\" { certToAdd.LifetimeSecs = 0 certToAdd.ConfirmBeforeUse = false } return agentClient.Add(certToAdd) }".toList := by
+  exact ⟨rfl, rfl⟩
+
+/-- every key kind of the regenerated client table is one the agent differential knows how to make
+(so that a new key type in `signers.compute` is either covered or stops the build) -/
+theorem c19_agent_key_kinds :
+    KM.Gen.clientKeyGen.all (fun r => r.2.2.1 == KeyKind.rsa || r.2.2.1 == KeyKind.ecdsa || r.2.2.1 == KeyKind.ed25519) = true := by
+  decide
+
 /-- why the blob hypothesis is there: were the same certificate blob held under two comments,
 `Remove` by blob would delete both -/
 example : agentUpsert [⟨"a".toList, 1, true⟩, ⟨"b".toList, 1, true⟩] ⟨"a".toList, 2, true⟩ =
